@@ -5,6 +5,7 @@
 //! TLC against a TLA+ definition (see /verif/specs).
 mod codec;
 mod deque;
+mod stream;
 mod util;
 
 fn main() {
@@ -17,6 +18,7 @@ fn main() {
     match args[1].as_str() {
         "deque" => deque::drive_deque(&args[2], &args[3]),
         "codec" => codec::drive_codec(&args[2], &args[3]),
+        "stream" => stream::drive_stream(&args[2], &args[3]),
         "sorted" => deque::drive_sorted(&args[2], &args[3]),
         e => {
             eprintln!("unknown engine {e}");
